@@ -1,13 +1,154 @@
 import Hms
 import Driver.Decode
-/-! Driver commands of the "Members" area. `dispatchMembers cmd payload` answers `some line` for the
-commands it owns and `none` otherwise. -/
+import Hms.Members.Sig
+/-! Driver commands of the "Members" area (C18). `dispatchMembers cmd payload` answers `some line`
+for the commands it owns and `none` otherwise.
+
+* `mmodel vm|tree <op>` — the model's outcome for `(call recv x<member> arg…)`, `(field recv x<member>)`,
+  `(index recv idx)` (value syntax of `hv membercall`):
+  `OK ret=<v> recv=<v>` | `INT class=fatal|throw kind=<K|-> msg=<hex>` | `PANIC <hex>` | `UNMODELLED`
+* `mconf call|field|index x<rep> x<member> <ret> <recv>` — does the dumped result conform to the type the
+  regenerated analyzer table advertises, and the receiver to the representative's type?
+  `CONF ret=<b> recv=<b>` | `NOROW`
+* `mrows` — the regenerated typed analyzer table: `rep|member|method|(params…)|result|modelled;…`
+* `mreps` — `rep|type;…`     * `mconverse` — `VM:rep.member,…|TREE:rep.member,…`
+-/
 namespace Driver
-open Hms
+open Hms Hms.Members HmsGen
+
+partial def decodeVal (s : Sexp) : Option MVal :=
+  match s with
+  | .atom "null" => some .null
+  | .atom "none" => some .none
+  | .atom _ => none
+  | .list (.atom "int" :: [x]) => (x.asInt?).map fun i => .int (BitVec.ofInt 64 i)
+  | .list (.atom "float" :: [x]) => (x.asNat?).map .float
+  | .list (.atom "bool" :: [x]) => (x.asBool?).map .bool
+  | .list (.atom "str" :: [x]) => (x.asStr?).map fun t => .str t.toList
+  | .list (.atom "range" :: [a, b, c]) => do
+    let a ← a.asInt?; let b ← b.asInt?; let c ← c.asBool?
+    pure (.range (BitVec.ofInt 64 a) (BitVec.ofInt 64 b) c)
+  | .list (.atom "list" :: xs) => (xs.mapM decodeVal).map .list
+  | .list (.atom "some" :: [x]) => (decodeVal x).map .some
+  | .list (.atom "anyobj" :: fs) => do
+    let kv ← fs.mapM decodeField
+    pure (.anyobj (kv.map (·.1)) (kv.map (·.2)))
+  | .list (.atom "obj" :: fs) => do
+    let kv ← fs.mapM decodeField
+    pure (.obj (kv.map (·.1)) (kv.map (·.2)))
+  | .list [.atom "fn"] => some .fn
+  | .list (.atom "other" :: [x]) => (x.asStr?).map .other
+  | _ => none
+where
+  decodeField (s : Sexp) : Option (String × MVal) :=
+    match s with
+    | .list [k, v] => do
+      let k ← k.asStr?
+      let v ← decodeVal v
+      pure (k, v)
+    | _ => none
+
+/-- Pair keys with values and sort by key (the Go side dumps maps sorted). -/
+def sortedFields (ks : List String) (vs : List MVal) : List (String × MVal) :=
+  let kv := ks.zip vs
+  (sortStrings (kv.map (·.1))).filterMap fun k => (kv.find? (·.1 == k)).map fun p => (k, p.2)
+
+partial def encodeVal : MVal → String
+  | .null => "null"
+  | .none => "none"
+  | .int v => s!"(int {v.toInt})"
+  | .float b => s!"(float {b})"
+  | .bool b => s!"(bool {b})"
+  | .str cs => s!"(str {Sexp.hexOfString (String.ofList cs)})"
+  | .range a b i => s!"(range {a.toInt} {b.toInt} {i})"
+  | .list xs => "(" ++ " ".intercalate ("list" :: xs.map encodeVal) ++ ")"
+  | .some v => s!"(some {encodeVal v})"
+  | .anyobj ks vs => "(" ++ " ".intercalate ("anyobj" :: (sortedFields ks vs).map fun (k, v) => s!"({Sexp.hexOfString k} {encodeVal v})") ++ ")"
+  | .obj ks vs => "(" ++ " ".intercalate ("obj" :: (sortedFields ks vs).map fun (k, v) => s!"({Sexp.hexOfString k} {encodeVal v})") ++ ")"
+  | .fn => "(fn)"
+  | .other k => s!"(other {Sexp.hexOfString k})"
+
+def encodeRes : Res → String
+  | .ok ret recv => s!"OK ret={encodeVal ret} recv={encodeVal recv}"
+  | .fatal k m => s!"INT class=fatal kind={k} msg={Sexp.hexOfString m}"
+  | .throw m => s!"INT class=throw kind=- msg={Sexp.hexOfString m}"
+  | .panic w => s!"PANIC {Sexp.hexOfString w}"
+  | .unmodelled => "UNMODELLED"
+
+def runOp (vm : Bool) (op : Sexp) : Option Res :=
+  match op with
+  | .list (.atom "call" :: recv :: name :: args) => do
+    let r ← decodeVal recv
+    let n ← name.asStr?
+    let a ← args.mapM decodeVal
+    pure (callMember vm r n a)
+  | .list [.atom "field", recv, name] => do
+    let r ← decodeVal recv
+    let n ← name.asStr?
+    pure (fieldMember r n)
+  | .list [.atom "index", recv, idx] => do
+    let r ← decodeVal recv
+    let i ← decodeVal idx
+    pure (indexValue r i)
+  | _ => none
+
+def cmdModel (payload : String) : String :=
+  match payload.splitOn " " with
+  | be :: rest =>
+    match Sexp.parse (" ".intercalate rest) with
+    | some op =>
+      match runOp (be == "vm") op with
+      | some r => encodeRes r
+      | none => "BAD-INPUT"
+    | none => "BAD-INPUT"
+  | _ => "BAD-INPUT"
+
+partial def encodeTy : GTy → String
+  | .unknown => "unknown" | .never => "never" | .any => "any" | .null => "null" | .int => "int"
+  | .float => "float" | .bool => "bool" | .str => "str" | .range => "range" | .anyobj => "anyobj"
+  | .obj => "obj" | .fn => "fn"
+  | .list e => s!"(list {encodeTy e})"
+  | .opt e => s!"(opt {encodeTy e})"
+  | .other p => s!"(other {Sexp.hexOfString p})"
+
+/-- `mconf kind x<rep> x<member> <ret> <recv>` -/
+def cmdConf (payload : String) : String :=
+  match Sexp.parse ("(" ++ payload ++ ")") with
+  | some (.list [.atom kind, rep, member, ret, recv]) =>
+    match rep.asStr?, member.asStr?, decodeVal ret, decodeVal recv with
+    | some rep, some member, some ret, some recv =>
+      match repType rep with
+      | none => "NOROW"
+      | some t =>
+        let resTy : Option GTy :=
+          if kind == "index" then indexResultType t
+          else (advertised rep member).map fun r => r.2.2
+        match resTy with
+        | none => "NOROW"
+        | some rt => s!"CONF ret={conforms ret rt} recv={conforms recv t}"
+    | _, _, _, _ => "BAD-INPUT"
+  | _ => "BAD-INPUT"
+
+def cmdRows : String :=
+  ";".intercalate <| membersAnalyzerTyped.map fun r =>
+    s!"{r.1}|{r.2.1}|{r.2.2.1}|({" ".intercalate (r.2.2.2.1.map encodeTy)})|{encodeTy r.2.2.2.2}|{modelled r.1 r.2.1 r.2.2.1}"
+
+def cmdReps : String :=
+  ";".intercalate <| repTypes.map fun r => s!"{r.1}|{encodeTy r.2}"
+
+def runtimeOnlyRows (tbl : List (String × String × String)) : List String :=
+  (tbl.filter fun r => !(membersAnalyzer.any fun a => a.1 == r.1 && a.2.1 == r.2.1)).map fun r => s!"{r.1}.{r.2.1}"
+
+def cmdConverse : String :=
+  s!"VM:{",".intercalate (runtimeOnlyRows membersVM)}|TREE:{",".intercalate (runtimeOnlyRows membersTree)}"
 
 def dispatchMembers (cmd : String) (payload : String) : Option String :=
-  let _ := payload
   match cmd with
+  | "mmodel" => some (cmdModel payload)
+  | "mconf" => some (cmdConf payload)
+  | "mrows" => some cmdRows
+  | "mreps" => some cmdReps
+  | "mconverse" => some cmdConverse
   | _ => none
 
 end Driver
